@@ -1,6 +1,21 @@
 import DryocVerif.Model.SecretStream
+import DryocVerif.Proofs.SecretStream
+/-
+C03 — secretstream: push/pull round trip with state lockstep through every rekey branch,
+rejected pulls leave everything untouched, counters never repeat inside a key epoch,
+`pull` accepts exactly the ciphertexts carrying the right authenticator, and the
+authenticated string is an injective encoding of (AD, tag block, ciphertext).
+Property theorems only; helper lemmas live in `DryocVerif/Proofs/SecretStream.lean`.
+
+Hypotheses (the only ones used anywhere):
+  `WF P`      : `(P.chacha k n c l).length = l` and `(P.mac k m).length = 16`
+  `StateWF s` : `s.k.length = 32` and `s.nonce.length = 12`
+Every theorem is for every `P`, every state (every counter value, `ff ff ff ff` included),
+every message, AD and tag byte.  Where a hypothesis is not needed it is simply not assumed.
+-/
 namespace DryocVerif.Properties.C03
-open DryocVerif DryocVerif.Model.SecretStream
+open DryocVerif DryocVerif.Model.Utils DryocVerif.Model.SecretStream
+open DryocVerif.Proofs.SecretStream (WF StateWF macKey pullBlock pullMac pullTag)
 
 /-- a rejected pull leaves the stream state, the message buffer and the tag variable as they were -/
 theorem failed_pull_preserves (P : Prims) (s : State) (m : Bytes) (tagv : UInt8) (ct ad : Bytes)
@@ -10,5 +25,375 @@ theorem failed_pull_preserves (P : Prims) (s : State) (m : Bytes) (tagv : UInt8)
   split <;> try simp_all
   split <;> try simp_all
   split <;> simp_all
+
+/-! ### 1. round trip and state lockstep -/
+
+/-- Whatever `push` produced, `pull` from the same state returns the message (written over the
+front of the caller's buffer), the tag byte, and **the very state `push` ended in** — for every tag
+byte and every counter, i.e. through all four branches of `advance` (tag bit, counter wrap, both,
+neither).  `StateWF s` is not needed. -/
+theorem pull_push (P : Prims) (hP : WF P) (s : State) (m ad : Bytes) (tag : UInt8) (c : Bytes) (s' : State)
+    (h : push P s (m.length + 17) m ad tag = .ok (c, s'))
+    (buf : Bytes) (tagv : UInt8) (hb : m.length ≤ buf.length) :
+    pull P s buf tagv c ad = ⟨.ok m.length, m ++ buf.drop m.length, tag, s'⟩ :=
+  Proofs.SecretStream.pull_push P hP s m ad tag c s' h buf tagv hb
+
+/-- `push` into a buffer of the right size always succeeds, with a ciphertext 17 bytes longer -/
+theorem push_ok (P : Prims) (hP : WF P) (s : State) (m ad : Bytes) (tag : UInt8) :
+    ∃ c s', push P s (m.length + 17) m ad tag = .ok (c, s') ∧ c.length = m.length + 17 := by
+  have h := Proofs.SecretStream.push_eq P s m ad tag
+  exact ⟨_, _, h, Proofs.SecretStream.push_ct_length P hP s m ad tag _ _ h⟩
+
+/-- object layer: `DryocStream::pull` undoes `DryocStream::push`, tag byte retained as is -/
+theorem objPull_objPush (P : Prims) (hP : WF P) (s : State) (m ad : Bytes) (tag : UInt8) (c : Bytes) (s' : State)
+    (h : objPush P s m ad tag = .ok (c, s')) : objPull P s c ad = (.ok (m, tag), s') :=
+  Proofs.SecretStream.objPull_objPush P hP s m ad tag c s' h
+
+/-! ### 2. the array lengths of the state are invariant -/
+
+theorem state_wf_preserved (P : Prims) (hP : WF P) (s : State) (hs : StateWF s) :
+    StateWF (rekey P s) ∧
+    (∀ mac tag, StateWF (advance P s mac tag)) ∧
+    (∀ ctLen m ad tag c s', push P s ctLen m ad tag = .ok (c, s') → StateWF s') ∧
+    (∀ buf tagv ct ad, StateWF (pull P s buf tagv ct ad).st) ∧
+    (∀ ct ad, StateWF (objPull P s ct ad).2) := by
+  have hadv := Proofs.SecretStream.advance_wf P hP s hs
+  have hpull : ∀ buf tagv ct ad, StateWF (pull P s buf tagv ct ad).st := by
+    intro buf tagv ct ad
+    rw [Proofs.SecretStream.pull_eq]
+    split; · exact hs
+    split; · exact hs
+    split; · exact hs
+    exact hadv _ _
+  refine ⟨Proofs.SecretStream.rekey_wf P hP s hs, hadv, ?_, hpull, ?_⟩
+  · intro ctLen m ad tag c s' h
+    unfold push at h
+    split at h
+    · simp at h
+    · simp only [Outcome.ok.injEq, Prod.mk.injEq] at h
+      rw [← h.2]; exact hadv _ _
+  · intro ct ad
+    rcases Proofs.SecretStream.objPull_cases P s ct ad with h | ⟨r, hr, _, h⟩
+    · rw [h]; exact hs
+    · rw [h, hr]; exact hpull _ _ _ _
+
+/-- `init_push` / `init_pull` produce a well-formed state when HChaCha20 returns 32 bytes.  The header is
+`[u8; 24]` in Rust; in the list model that is a hypothesis (at least 24 bytes suffices) … -/
+theorem initState_wf (P : Prims) (header key : Bytes) (hh : 24 ≤ header.length)
+    (hk : (P.hchacha key (header.take 16)).length = 32) : StateWF (initState P header key) :=
+  Proofs.SecretStream.initState_wf P header key hh hk
+
+/-- … and it cannot be dropped: a 23-byte header gives an 11-byte nonce -/
+example : (initState ⟨fun _ _ _ l => zeros l, fun _ _ => zeros 32, fun _ _ => zeros 16⟩ (zeros 23) []).nonce.length = 11 := by
+  decide
+
+/-! ### 3. arbitrary histories stay in lockstep -/
+
+/-- what the sending application does -/
+inductive Op where
+  | push (m ad : Bytes) (tag : UInt8)
+  | rekey
+  deriving Repr, DecidableEq
+
+/-- what the receiving application sees: a ciphertext with its AD, or the agreed explicit rekey -/
+inductive Wire where
+  | msg (ct ad : Bytes)
+  | rekey
+  deriving Repr, DecidableEq
+
+/-- run a history on the push side (`DryocStream::push` / `rekey`), recording the wire in order -/
+def runPush (P : Prims) : State → List Op → State × List Wire
+  | s, [] => (s, [])
+  | s, .rekey :: ops => let r := runPush P (rekey P s) ops; (r.1, .rekey :: r.2)
+  | s, .push m ad tag :: ops =>
+    match objPush P s m ad tag with
+    | .ok (c, s') => let r := runPush P s' ops; (r.1, .msg c ad :: r.2)
+    | _ => (s, [])
+
+/-- run the wire on the pull side (`DryocStream::pull` / `rekey`); `none` as soon as a pull fails -/
+def runPull (P : Prims) : State → List Wire → Option (State × List (Bytes × UInt8))
+  | s, [] => some (s, [])
+  | s, .rekey :: ws => runPull P (rekey P s) ws
+  | s, .msg ct ad :: ws =>
+    match objPull P s ct ad with
+    | (.ok mt, s') => (runPull P s' ws).map fun r => (r.1, mt :: r.2)
+    | _ => none
+
+/-- the `(message, tag)` list a history sends -/
+def sent : List Op → List (Bytes × UInt8)
+  | [] => []
+  | .rekey :: ops => sent ops
+  | .push m _ tag :: ops => (m, tag) :: sent ops
+
+/-- For histories of **any** length and shape (messages of any size, any tag bytes, explicit rekeys,
+automatic rekeys by tag bit or by counter wrap): starting from equal states, the pull side accepts
+everything, returns exactly the pushed `(message, tag)` list, and ends in the same state as the
+push side; nothing of the history is dropped on the wire. -/
+theorem history_lockstep (P : Prims) (hP : WF P) (ops : List Op) (s : State) :
+    runPull P s (runPush P s ops).2 = some ((runPush P s ops).1, sent ops) ∧
+    (runPush P s ops).2.length = ops.length := by
+  induction ops generalizing s with
+  | nil => exact ⟨rfl, rfl⟩
+  | cons op ops ih =>
+    cases op with
+    | rekey =>
+      have := ih (rekey P s)
+      simp only [runPush, runPull, sent, List.length_cons]
+      exact ⟨this.1, by rw [this.2]⟩
+    | push m ad tag =>
+      obtain ⟨c, s', h, _⟩ := push_ok P hP s m ad tag
+      have ho : objPush P s m ad tag = .ok (c, s') := h
+      have hpl := objPull_objPush P hP s m ad tag c s' ho
+      have := ih s'
+      simp [runPush, ho, runPull, hpl, sent, this.1, this.2]
+
+/-- … and well-formedness of the state is kept along every history -/
+theorem runPush_wf (P : Prims) (hP : WF P) (ops : List Op) (s : State) (hs : StateWF s) :
+    StateWF (runPush P s ops).1 := by
+  induction ops generalizing s with
+  | nil => exact hs
+  | cons op ops ih =>
+    cases op with
+    | rekey => exact ih _ (state_wf_preserved P hP s hs).1
+    | push m ad tag =>
+      obtain ⟨c, s', h, _⟩ := push_ok P hP s m ad tag
+      have ho : objPush P s m ad tag = .ok (c, s') := h
+      simp only [runPush, ho]
+      exact ih _ ((state_wf_preserved P hP s hs).2.2.1 _ _ _ _ _ _ h)
+
+/-! ### 4. forgeries do not desynchronise the stream -/
+
+/-- one call of `pull` by whoever controls the wire: any buffer, any tag variable, any ciphertext, any AD -/
+structure Attempt where
+  buf : Bytes
+  tagv : UInt8
+  ct : Bytes
+  ad : Bytes
+
+/-- feed the attempts to `pull` one after the other, threading the state; collect the outcomes -/
+def runAttempts (P : Prims) : State → List Attempt → State × List (Outcome Nat)
+  | s, [] => (s, [])
+  | s, a :: as =>
+    let r := pull P s a.buf a.tagv a.ct a.ad
+    let t := runAttempts P r.st as
+    (t.1, r.res :: t.2)
+
+/-- any number of rejected pulls leave the state exactly as it was -/
+theorem rejected_pulls_preserve (P : Prims) (as : List Attempt) (s : State)
+    (hrej : ∀ o ∈ (runAttempts P s as).2, o = .err) : (runAttempts P s as).1 = s := by
+  induction as generalizing s with
+  | nil => rfl
+  | cons a as ih =>
+    simp only [runAttempts, List.mem_cons, forall_eq_or_imp] at hrej ⊢
+    have hst := (failed_pull_preserves P s a.buf a.tagv a.ct a.ad hrej.1).1
+    rw [hst] at hrej ⊢
+    exact ih s hrej.2
+
+/-- … hence the genuine next ciphertext is still accepted afterwards, with the same result -/
+theorem genuine_still_accepted (P : Prims) (hP : WF P) (s : State) (m ad : Bytes) (tag : UInt8)
+    (c : Bytes) (s' : State) (h : push P s (m.length + 17) m ad tag = .ok (c, s'))
+    (as : List Attempt) (hrej : ∀ o ∈ (runAttempts P s as).2, o = .err)
+    (buf : Bytes) (tagv : UInt8) (hb : m.length ≤ buf.length) :
+    pull P (runAttempts P s as).1 buf tagv c ad = ⟨.ok m.length, m ++ buf.drop m.length, tag, s'⟩ := by
+  rw [rejected_pulls_preserve P as s hrej]
+  exact pull_push P hP s m ad tag c s' h buf tagv hb
+
+/-! ### 5. counters inside a key epoch -/
+
+/-- `rekey` always restarts the counter at 1 -/
+theorem rekey_counter (P : Prims) (s : State) : (rekey P s).counter = [1, 0, 0, 0] :=
+  Proofs.SecretStream.rekey_counter P s
+
+/-- `advance` rekeys exactly when the tag has the REKEY bit or the counter is `ff ff ff ff`; then the
+counter is `[1,0,0,0]` (under a new key); otherwise it is the old counter plus one, without wrap.
+Either way it is never `[0,0,0,0]`: inside one key epoch the counter strictly increases, so no
+(key, nonce) pair is used twice. -/
+theorem counter_epoch (P : Prims) (s : State) (hs : StateWF s) (mac : Bytes) (tag : UInt8) :
+    let s' := advance P s mac tag
+    let rk := tag.toNat &&& TAG_REKEY = TAG_REKEY ∨ le s.counter = 2 ^ 32 - 1
+    (rk → s' = rekey P { s with nonce := incrementBytes s.counter ++ xorBuf s.inonce mac } ∧
+          s'.counter = [1, 0, 0, 0]) ∧
+    (¬ rk → s'.k = s.k ∧ le s'.counter = le s.counter + 1 ∧ le s'.counter < 2 ^ 32) ∧
+    s'.counter ≠ [0, 0, 0, 0] := by
+  intro s' rk
+  have hc := Proofs.SecretStream.counter_length s hs
+  have hff := Proofs.SecretStream.le_ff4 s.counter hc
+  obtain ⟨h1, h2⟩ := Proofs.SecretStream.advance_counter P s hs mac tag
+  refine ⟨fun h => ⟨?_, h1 h⟩, fun h => ⟨?_, (h2 h).1, (h2 h).2.1⟩, ?_⟩
+  · show advance P s mac tag = _
+    unfold advance
+    exact if_pos (h.imp id hff.mpr)
+  · show (advance P s mac tag).k = _
+    unfold advance
+    simp only
+    rw [if_neg (fun h' => h (h'.imp id hff.mp))]
+  · by_cases h : rk
+    · show (advance P s mac tag).counter ≠ _
+      rw [h1 h]; decide
+    · exact (h2 h).2.2
+
+/-- the counter wraps exactly at `ff ff ff ff` -/
+theorem counter_wrap_iff (c : Bytes) (hc : c.length = 4) :
+    incrementBytes c = [0, 0, 0, 0] ↔ c = [0xff, 0xff, 0xff, 0xff] := by
+  rw [Proofs.SecretStream.le_ff4 c hc]
+  match c, hc with
+  | [a, b, c, d], _ =>
+    have := a.toNat_lt; have := b.toNat_lt; have := c.toNat_lt; have := d.toNat_lt
+    constructor
+    · intro h
+      simp only [le] at h
+      have ha : a.toNat = 255 := by omega
+      have hb : b.toNat = 255 := by omega
+      have hc : c.toNat = 255 := by omega
+      have hd : d.toNat = 255 := by omega
+      have e : ∀ x : UInt8, x.toNat = 255 → x = 0xff := fun x hx => UInt8.toNat_inj.mp (by simpa using hx)
+      rw [e a ha, e b hb, e c hc, e d hd]
+    · intro h
+      simp only [List.cons.injEq, and_true] at h
+      obtain ⟨rfl, rfl, rfl, rfl⟩ := h
+      decide
+
+/-! ### 6. `pull` accepts exactly the correctly authenticated ciphertexts -/
+
+/-- the Poly1305 key of a pull is the first 32 key-stream bytes at this position (definitional) -/
+theorem mac_key_depends_on_position (P : Prims) (s : State) :
+    macKey P s = P.chacha s.k s.nonce 0 32 := rfl
+
+/-- … and the position is the message counter followed by the inner nonce -/
+theorem mac_key_counter (P : Prims) (s : State) (hs : StateWF s) :
+    macKey P s = P.chacha s.k (s.counter ++ s.inonce) 0 32 := by
+  rw [← Proofs.SecretStream.nonce_split s hs]; rfl
+
+/-- the tag block as `pull` reconstructs it (definitional) -/
+theorem pullBlock_def (P : Prims) (s : State) (ct : Bytes) :
+    pullBlock P s ct =
+      ct.take 1 ++ (xorBytes (ct.take 1 ++ zeros 63) (P.chacha s.k s.nonce 1 64)).drop 1 := rfl
+
+/-- complete decision procedure for `pull` -/
+theorem pull_ok_iff (P : Prims) (s : State) (buf : Bytes) (tagv : UInt8) (ct ad : Bytes) (n : Nat) :
+    (pull P s buf tagv ct ad).res = .ok n ↔
+      17 ≤ ct.length ∧ n = ct.length - 17 ∧ n ≤ buf.length ∧
+      ct.drop (1 + n) =
+        P.mac (P.chacha s.k s.nonce 0 32) (macInput ad (pullBlock P s ct) ((ct.drop 1).take n)) := by
+  rw [Proofs.SecretStream.pull_ok_iff]
+  constructor
+  · rintro ⟨h1, rfl, h3, h4⟩; exact ⟨h1, rfl, h3, h4⟩
+  · rintro ⟨h1, rfl, h3, h4⟩; exact ⟨h1, rfl, h3, h4⟩
+
+/-- … and what an accepted pull returns: message, decrypted tag byte, advanced state -/
+theorem pull_ok_result (P : Prims) (s : State) (buf : Bytes) (tagv : UInt8) (ct ad : Bytes) (n : Nat)
+    (h : (pull P s buf tagv ct ad).res = .ok n) :
+    pull P s buf tagv ct ad =
+      ⟨.ok n, xorBytes ((ct.drop 1).take n) (P.chacha s.k s.nonce 2 n) ++ buf.drop n,
+        pullTag P s ct, advance P s (pullMac P s ct ad) (pullTag P s ct)⟩ := by
+  obtain ⟨h1, rfl, h3, h4⟩ := (Proofs.SecretStream.pull_ok_iff P s buf tagv ct ad n).mp h
+  exact Proofs.SecretStream.pull_ok_eq P s buf tagv ct ad h1 h3 h4
+
+/-! ### 7. nothing escapes the MAC -/
+
+/-- `macInput` is injective in (AD, tag block, ciphertext): the padding and the two length words make
+the concatenation uniquely decodable.  (Lengths below 2^64 as in Rust, `usize as u64`.) -/
+theorem macInput_injective (ad block c ad' block' c' : Bytes)
+    (hb : block.length = 64) (hb' : block'.length = 64)
+    (had : ad.length < 2 ^ 64) (had' : ad'.length < 2 ^ 64)
+    (hc : 64 + c.length < 2 ^ 64) (hc' : 64 + c'.length < 2 ^ 64)
+    (h : macInput ad block c = macInput ad' block' c') :
+    ad = ad' ∧ block = block' ∧ c = c' :=
+  Proofs.SecretStream.macInput_injective ad block c ad' block' c' hb hb' had had' hc hc' h
+
+/-- the two pads, in closed form (libsodium's ciphertext pad is `mlen % 16`, not `(16 - mlen % 16) % 16`) -/
+theorem pads (n : Nat) : bufferMacPad n = n % 16 ∧ pad16 n = (16 - n % 16) % 16 :=
+  ⟨Proofs.SecretStream.bufferMacPad_eq n, Proofs.SecretStream.pad16_eq n⟩
+
+/-- the block that goes into the MAC always has 64 bytes, so `macInput_injective` applies to every pull -/
+theorem pullBlock_length (P : Prims) (hP : WF P) (s : State) (ct : Bytes) (h : 1 ≤ ct.length) :
+    (pullBlock P s ct).length = 64 := by
+  unfold pullBlock
+  simp only [List.length_append, List.length_take, List.length_drop, Proofs.SecretStream.xorBytes_length,
+    hP.chacha_len, Proofs.SecretStream.zeros_length]
+  omega
+
+/-! ### 8. tampering with the authenticator, 9. short input -/
+
+/-- if a ciphertext is accepted, the same ciphertext with any other last 16 bytes is rejected -/
+theorem tag_tamper_rejected (P : Prims) (s : State) (buf : Bytes) (tagv : UInt8) (ct ad : Bytes) (n : Nat)
+    (hok : (pull P s buf tagv ct ad).res = .ok n)
+    (t : Bytes) (htl : t.length = 16) (hne : t ≠ ct.drop (ct.length - 16)) (buf' : Bytes) (tagv' : UInt8) :
+    (pull P s buf' tagv' (ct.take (ct.length - 16) ++ t) ad).res = .err :=
+  Proofs.SecretStream.tag_tamper_rejected P s buf tagv ct ad n hok t htl hne buf' tagv'
+
+/-- fewer than 17 bytes is always an error -/
+theorem short_rejected (P : Prims) (s : State) (buf : Bytes) (tagv : UInt8) (ct ad : Bytes)
+    (h : ct.length < 17) : (pull P s buf tagv ct ad).res = .err := by
+  rw [Proofs.SecretStream.pull_eq, if_pos h]
+
+/-- a message buffer that is too small is an error, not a panic and not a truncation -/
+theorem small_buffer_rejected (P : Prims) (s : State) (buf : Bytes) (tagv : UInt8) (ct ad : Bytes)
+    (h : buf.length < ct.length - 17) : (pull P s buf tagv ct ad).res = .err := by
+  rw [Proofs.SecretStream.pull_eq]
+  by_cases h0 : ct.length < 17
+  · rw [if_pos h0]
+  · rw [if_neg h0, if_pos h]
+
+/-! ### 10. non-vacuity -/
+
+/-- a toy instance of the primitives meeting `WF` -/
+def toyP : Prims where
+  chacha := fun _ _ c l => List.replicate l (UInt8.ofNat (c + 1))
+  hchacha := fun k _ => k
+  mac := fun _ m => (m ++ zeros 16).take 16
+
+theorem toyP_wf : WF toyP :=
+  ⟨fun _ _ _ _ => by simp [toyP], fun _ _ => by simp [toyP, zeros]⟩
+
+/-- a state whose counter is about to wrap -/
+def toyS : State := { k := zeros 32, nonce := [0xff, 0xff, 0xff, 0xff] ++ zeros 8 }
+
+theorem toyS_wf : StateWF toyS := ⟨by decide, by decide⟩
+
+
+/-- the toy state's counter wraps on increment -/
+example : incrementBytes toyS.counter = [0, 0, 0, 0] := by decide
+
+/-- a concrete push at counter `ff ff ff ff` with tag 0: succeeds, goes through the wrap-rekey branch
+(new key, counter back to 1) … -/
+example : ∃ c s', push toyP toyS 18 [0x41] [0x42] 0 = .ok (c, s') ∧
+    s' = rekey toyP { toyS with nonce := incrementBytes toyS.counter ++ xorBuf toyS.inonce (c.drop 2) } ∧
+    s'.counter = [1, 0, 0, 0] ∧ s'.k ≠ toyS.k ∧ StateWF s' := by
+  refine ⟨_, _, rfl, ?_, ?_, ?_, ⟨?_, ?_⟩⟩ <;> decide
+
+/-- … and the hypotheses of `pull_push` are met there, so its conclusion holds; here it is, computed -/
+example : ∃ c s', push toyP toyS 18 [0x41] [0x42] 0 = .ok (c, s') ∧
+    pull toyP toyS [9, 9, 9] 7 c [0x42] = ⟨.ok 1, [0x41, 9, 9], 0, s'⟩ :=
+  ⟨_, _, rfl, by decide⟩
+
+example : ∃ c s', push toyP toyS 18 [0x41] [0x42] 0 = .ok (c, s') ∧
+    pull toyP toyS [9, 9, 9] 7 c [0x42] = ⟨.ok 1, [0x41, 9, 9], 0, s'⟩ :=
+  ⟨_, _, rfl, pull_push toyP toyP_wf toyS [0x41] [0x42] 0 _ _ rfl [9, 9, 9] 7 (by decide)⟩
+
+/-- the other three branches: tag bit at a wrapping counter, tag bit alone, neither -/
+example : ∃ c s', push toyP toyS 18 [0x41] [0x42] 3 = .ok (c, s') ∧ s'.counter = [1, 0, 0, 0] ∧ s'.k ≠ toyS.k ∧
+    pull toyP toyS [9, 9, 9] 7 c [0x42] = ⟨.ok 1, [0x41, 9, 9], 3, s'⟩ := by
+  refine ⟨_, _, rfl, ?_, ?_, ?_⟩ <;> decide
+
+example : ∃ c s', push toyP { toyS with nonce := [5, 0, 0, 0] ++ zeros 8 } 18 [0x41] [] 2 = .ok (c, s') ∧
+    s'.counter = [1, 0, 0, 0] ∧ s'.k ≠ toyS.k := by
+  refine ⟨_, _, rfl, ?_, ?_⟩ <;> decide
+
+example : ∃ c s', push toyP { toyS with nonce := [0xff, 0xff, 0, 0] ++ zeros 8 } 18 [0x41] [] 1 = .ok (c, s') ∧
+    s'.counter = [0, 0, 1, 0] ∧ s'.k = toyS.k := by
+  refine ⟨_, _, rfl, ?_, ?_⟩ <;> decide
+
+/-- a two-message history with an explicit rekey in between, starting at the wrapping counter -/
+example : runPull toyP toyS (runPush toyP toyS [.push [1, 2] [3] 0, .rekey, .push [] [] 2]).2
+    = some ((runPush toyP toyS [.push [1, 2] [3] 0, .rekey, .push [] [] 2]).1, [([1, 2], 0), ([], 2)]) := by
+  decide
+
+/-- a forged authenticator is rejected and the genuine ciphertext still goes through -/
+example : ∃ c s', push toyP toyS 18 [0x41] [0x42] 0 = .ok (c, s') ∧
+    (runAttempts toyP toyS [⟨[0], 0, c.take 2 ++ zeros 16, [0x42]⟩, ⟨[], 0, [1, 2, 3], []⟩]).2 = [.err, .err] ∧
+    pull toyP (runAttempts toyP toyS [⟨[0], 0, c.take 2 ++ zeros 16, [0x42]⟩, ⟨[], 0, [1, 2, 3], []⟩]).1
+      [0] 0 c [0x42] = ⟨.ok 1, [0x41], 0, s'⟩ := by
+  refine ⟨_, _, rfl, ?_, ?_⟩ <;> decide
 
 end DryocVerif.Properties.C03
